@@ -456,7 +456,7 @@ def pseudopressure_threephase(pressure: ndarray, So: ndarray, pvt: dict, kr: dic
     )
     lambda_water = pvt["rho_w0"] * (kr["krw"](So) / (pvt["mu_w"](pressure) * pvt["Bw"](pressure)))
     integrand = lambda_oil + lambda_gas + lambda_water
-    pseudopressure = cumulative_trapezoid(pressure, integrand, initial=0)
+    pseudopressure = cumulative_trapezoid(integrand, pressure, initial=0)
     return pseudopressure
 
 
